@@ -249,3 +249,104 @@ Proof.
     apply Z.leb_le in H1, H1'. apply Z.ltb_lt in H2, H2'.
     rewrite !nth_classes by lia. rewrite !Z2Nat.id by lia. apply Hm.
 Qed.
+
+(* ---- transfer to the functional forms ---- *)
+(* [b'] is a relabelled version of [b]: its per-sample (prediction, target) pairs are those of [b] mapped
+   through pi.  Instances: label inputs (below), score inputs with permuted columns (further below). *)
+Definition relabelled (pi : Z -> Z) (b b' : mcbatch) : Prop := pairs_spec b' = relabel pi (pairs_spec b).
+Definition mc_relabel (pi : Z -> Z) (b : mcbatch) : mcbatch :=
+  (match fst b with Labels l => Labels (map pi l) | Logits r => Logits r end, map pi (snd b)).
+Lemma relabelled_labels pi l t : relabelled pi (Labels l, t) (mc_relabel pi (Labels l, t)).
+Proof. unfold relabelled, mc_relabel, pairs_spec, relabel. cbn [fst snd preds_spec]. apply combine_map2. Qed.
+
+Theorem mcprec_relabel n pi a b b' : perm_on n pi -> relabelled pi b b' ->
+  (a = Weighted -> targets_in n b /\ targets_in n b') ->
+  (a <> NoAvg -> fn_of mcprec_spec (a, Some n) b' = fn_of mcprec_spec (a, Some n) b) /\
+  (a = NoAvg -> forall c, inrange n c = true ->
+     res_at (fn_of mcprec_spec (a, Some n) b') (pi c) = res_at (fn_of mcprec_spec (a, Some n) b) c).
+Proof.
+  intros Hpi Hr Hv. rewrite !mcprec_algo_eq_spec by (intros E; apply Hv, E).
+  apply (prf_textbook_relabel n pi precision_c a b b' Hpi); [intros ps c; apply (precision_relabel n pi Hpi)|exact Hr].
+Qed.
+Theorem mcrec_relabel n pi a b b' : perm_on n pi -> relabelled pi b b' -> aligned b -> aligned b' ->
+  (a = Weighted -> targets_in n b /\ targets_in n b') ->
+  (a <> NoAvg -> fn_of mcrec_spec (a, Some n) b' = fn_of mcrec_spec (a, Some n) b) /\
+  (a = NoAvg -> forall c, inrange n c = true ->
+     res_at (fn_of mcrec_spec (a, Some n) b') (pi c) = res_at (fn_of mcrec_spec (a, Some n) b) c).
+Proof.
+  intros Hpi Hr A A' Hv. rewrite !mcrec_algo_eq_spec by (try assumption; intros E; apply Hv, E).
+  apply (prf_textbook_relabel n pi recall_c a b b' Hpi); [intros ps c; apply (recall_relabel n pi Hpi)|exact Hr].
+Qed.
+Theorem mcf1_relabel n pi a b b' : perm_on n pi -> relabelled pi b b' -> aligned b -> aligned b' ->
+  (a = Weighted -> targets_in n b /\ targets_in n b') ->
+  (a <> NoAvg -> fn_of mcf1_spec (a, Some n) b' = fn_of mcf1_spec (a, Some n) b) /\
+  (a = NoAvg -> forall c, inrange n c = true ->
+     res_at (fn_of mcf1_spec (a, Some n) b') (pi c) = res_at (fn_of mcf1_spec (a, Some n) b) c).
+Proof.
+  intros Hpi Hr A A' Hv. rewrite !mcf1_algo_eq_spec by (try assumption; intros E; apply Hv, E).
+  apply (prf_textbook_relabel n pi f1_c a b b' Hpi); [intros ps c; apply (f1_relabel n pi Hpi)|exact Hr].
+Qed.
+
+(* confusion matrix: rows and columns are permuted; every normalisation *)
+Definition mat_at (r : res) (i j : Z) : xq := match r with RM m => nth (Z.to_nat j) (nth (Z.to_nat i) m []) NaN | _ => NaN end.
+Lemma idx_in n c : inrange n c = true -> (Z.to_nat c < n)%nat /\ Z.of_nat (Z.to_nat c) = c.
+Proof. unfold inrange. intros H. apply andb_prop in H as [H1 H2]. apply Z.leb_le in H1. apply Z.ltb_lt in H2. lia. Qed.
+Lemma cm_textbook_relabel n pi nm ps i j : perm_on n pi -> inrange n i = true -> inrange n j = true ->
+  mat_at (cm_textbook_ps n nm (relabel pi ps)) (pi i) (pi j) = mat_at (cm_textbook_ps n nm ps) i j.
+Proof.
+  intros Hpi Hi Hj. pose proof (proj2 Hpi i Hi) as Hi'. pose proof (proj2 Hpi j Hj) as Hj'.
+  destruct (idx_in n i Hi) as [Li Ei], (idx_in n j Hj) as [Lj Ej], (idx_in n _ Hi') as [Li' Ei'], (idx_in n _ Hj') as [Lj' Ej'].
+  unfold cm_textbook_ps, mat_at. rewrite !(nth_classes _ _ n) by assumption. cbn beta.
+  rewrite Ei, Ej, Ei', Ej', (cell_relabel n pi Hpi), len_relabel.
+  assert (Hc : cnt (fun py : Z * Z => fst py =? pi j) (relabel pi ps) = cnt (fun py : Z * Z => fst py =? j) ps).
+  { unfold relabel. rewrite cnt_map. apply cnt_ext. intros [p y]. cbn [fst]. apply (eqb_pi n pi Hpi). }
+  assert (Hrw : cnt (fun py : Z * Z => snd py =? pi i) (relabel pi ps) = cnt (fun py : Z * Z => snd py =? i) ps).
+  { unfold relabel. rewrite cnt_map. apply cnt_ext. intros [p y]. cbn [snd]. apply (eqb_pi n pi Hpi). }
+  rewrite Hc, Hrw. reflexivity.
+Qed.
+Theorem mccm_relabel n pi nm b b' i j : perm_on n pi -> relabelled pi b b' -> cm_ok (n, nm) b -> cm_ok (n, nm) b' ->
+  inrange n i = true -> inrange n j = true ->
+  mat_at (fn_of mccm_spec (n, nm) b') (pi i) (pi j) = mat_at (fn_of mccm_spec (n, nm) b) i j.
+Proof.
+  intros Hpi Hr O O' Hi Hj. rewrite !mccm_algo_eq_spec by assumption. unfold mccm_textbook. cbn [fst snd]. rewrite Hr.
+  apply cm_textbook_relabel; assumption.
+Qed.
+
+(* accuracy: a sample is (correct?, target); relabelling maps the targets and keeps correctness *)
+Definition acc_relabelled (pi : Z -> Z) (c : acc_cfg) (b b' : mcbatch) : Prop :=
+  acc_samples c b' = map (fun s => (fst s, pi (snd s))) (acc_samples c b).
+Lemma mcacc_textbook_relabel n pi a k b b' : perm_on n pi -> acc_relabelled pi (a, Some n, k) b b' ->
+  (a = Micro \/ a = Macro -> mcacc_textbook (a, Some n, k) b' = mcacc_textbook (a, Some n, k) b) /\
+  (a = NoAvg -> forall c, inrange n c = true ->
+     res_at (mcacc_textbook (a, Some n, k) b') (pi c) = res_at (mcacc_textbook (a, Some n, k) b) c).
+Proof.
+  intros Hpi Hr. unfold mcacc_textbook. cbv zeta. rewrite Hr. set (cs := acc_samples (a, Some n, k) b). unfold acc_avg, acc_nc. cbn [fst snd ncls].
+  assert (Hc1 : forall c, cnt (fun s : bool * Z => snd s =? pi c) (map (fun s : bool * Z => (fst s, pi (snd s))) cs) = cnt (fun s : bool * Z => snd s =? c) cs).
+  { intros c. rewrite cnt_map. apply cnt_ext. intros [m y]. cbn [snd]. apply (eqb_pi n pi Hpi). }
+  assert (Hc2 : forall c, cnt (fun s : bool * Z => fst s && (snd s =? pi c)) (map (fun s : bool * Z => (fst s, pi (snd s))) cs) = cnt (fun s : bool * Z => fst s && (snd s =? c)) cs).
+  { intros c. rewrite cnt_map. apply cnt_ext. intros [m y]. cbn [fst snd]. rewrite (eqb_pi n pi Hpi). reflexivity. }
+  assert (Hacc : forall c, acc_c (map (fun s : bool * Z => (fst s, pi (snd s))) cs) (pi c) = acc_c cs c).
+  { intros c. unfold acc_c. rewrite Hc1, Hc2. reflexivity. }
+  split.
+  - intros [->| ->]; f_equal.
+    + rewrite cnt_map, lenZ_map. reflexivity.
+    + apply (avg_relabel n pi Hpi xmean xmean_perm); [exact Hacc|]. intros c. rewrite Hc1. reflexivity.
+  - intros -> c Hc. cbn [res_at]. destruct (idx_in n c Hc) as [L E], (idx_in n _ (proj2 Hpi c Hc)) as [L' E'].
+    rewrite !nth_classes by assumption. rewrite E, E'. apply Hacc.
+Qed.
+Theorem mcacc_relabel n pi a k b b' : perm_on n pi -> acc_relabelled pi (a, Some n, k) b b' ->
+  acc_valid (a, Some n, k) b = true -> acc_valid (a, Some n, k) b' = true ->
+  (a = Micro \/ a = Macro -> fn_of mcacc_spec (a, Some n, k) b' = fn_of mcacc_spec (a, Some n, k) b) /\
+  (a = NoAvg -> forall c, inrange n c = true ->
+     res_at (fn_of mcacc_spec (a, Some n, k) b') (pi c) = res_at (fn_of mcacc_spec (a, Some n, k) b) c).
+Proof.
+  intros Hpi Hr V V'. rewrite !mcacc_algo_eq_spec by (apply acc_valid_targets; assumption).
+  apply mcacc_textbook_relabel; assumption.
+Qed.
+(* label inputs, k = 1 *)
+Lemma acc_relabelled_labels n pi a l t : perm_on n pi ->
+  acc_relabelled pi (a, Some n, 1%nat) (Labels l, t) (mc_relabel pi (Labels l, t)).
+Proof.
+  intros Hpi. unfold acc_relabelled, acc_samples, acc_k. cbn [snd Nat.eqb]. rewrite (relabelled_labels pi l t). unfold relabel.
+  rewrite !map_map. apply map_ext. intros [p y]. cbn [fst snd]. rewrite (eqb_pi n pi Hpi). reflexivity.
+Qed.
